@@ -25,8 +25,10 @@ TRUSTED = [
     'harness/impl/c12_impl.py writes the .ply / FITS / window_blist+window_bcaps files the readers are run on',
 ]
 ASSUMPTIONS = [
-    'points exactly on a cap boundary (1 - x.p = |cm|) are excluded: there the code answers "inside" for cm and -cm alike '
-    '(proved: C12_boundary_in_both_R), so "complement" holds only off the boundary (C12_neg_cap_is_complement_R)',
+    'points exactly on a cap boundary (1 - x.p = |cm|) count as inside for cm and -cm alike (code convention, proved: '
+    'C12_boundary_in_both_R; "complement" holds off the boundary: C12_neg_cap_is_complement_R); such ties and near-ties are '
+    'tested only where the implementation arithmetic is exact (axis centres, grid points, 1 - |cm| representable); elsewhere '
+    'points keep 1e-11 from every boundary',
     '|cm| <= 2, unit-length x and p up to rounding; float32 cap tables, polygons with zero caps in .ply files and negative '
     'or >= 63 index-list entries are outside the generated inputs',
     'set_use_caps: the tolerance tests are compared away from their thresholds (duplicates differ by 0 or by <= tol/100, '
@@ -143,8 +145,36 @@ def exact_omd(x, p):
     return 1 - sum(Fr(a) * Fr(b) for a, b in zip(x, p))
 
 
+def _rep(fr):
+    """is the rational exactly a double?"""
+    try:
+        return Fr(float(fr)) == fr
+    except OverflowError:
+        return False
+
+
+def exact_regime_ok(x, cm, p):
+    """(cap, point) pair closer to the boundary than the margin, but decided by the implementation's floating
+    point arithmetic exactly as by exact arithmetic: the dot product and 1 - |cm| are computed without rounding,
+    and the two arccos arguments are either equal (a tie: the boundary itself) or far enough apart for arccos."""
+    prods = [Fr(a) * Fr(b) for a, b in zip(x, p)]
+    sums = [prods[0] + prods[1], prods[0] + prods[2], prods[1] + prods[2], sum(prods)]
+    if not all(_rep(q) for q in prods + sums):
+        return False
+    d = sum(prods)
+    c1 = 1.0 - abs(cm)
+    if Fr(c1) != 1 - abs(Fr(cm)):
+        return False
+    dc = min(1.0, max(-1.0, float(d)))
+    if Fr(dc) != d and abs(float(d)) <= 1.0:
+        return False
+    if c1 == dc:
+        return True
+    return abs(math.acos(c1) - math.acos(dc)) > 1e-10
+
+
 def margin_ok(x, cm, p):
-    return abs(exact_omd(x, p) - abs(Fr(cm))) > MARGIN
+    return abs(exact_omd(x, p) - abs(Fr(cm))) > MARGIN or exact_regime_ok(x, cm, p)
 
 
 def perp(rng, x):
@@ -354,6 +384,88 @@ def gen_sweep_job(rng, n):
     keep = [i for i, pt in enumerate(pts) if all(margin_ok(x, cm, pt) for x, cm in zip(p['x'], p['cm']))]
     return {'f': 'sweep', 'x': p['x'], 'cm': p['cm'], 'pts': [pts[i] for i in keep], 'kinds': [kinds[i] for i in keep],
             'masks': list(range(1 << n)), 'ncaps_list': list(range(-1, n + 2))}
+
+
+# ---------------------------------------------------------------- wave 4: boundary values of cm, exact ties
+
+TWO_MINUS = math.nextafter(2.0, 0.0)
+SPECIAL_CM = [0.0, -0.0, 5e-324, -5e-324, 1e-300, -1e-300, 2.0, -2.0, TWO_MINUS, -TWO_MINUS, 1.0, -1.0,
+              0.5, -0.5, 0.25, -0.25, 1.5, -1.5, 1.0 + 2.0 ** -30, 1.0 - 2.0 ** -30, -(1.0 + 2.0 ** -30)]
+
+
+def grid_point(rng):
+    """near-unit vector with coordinates on the 1/64 grid (dot products with axis vectors are exact)"""
+    u = rand_unit(rng)
+    return [round(c * 64) / 64 for c in u]
+
+
+def boundary_cm(rng, x, p):
+    """cm on / just above / just below the boundary through point p (exact arithmetic decides)"""
+    t = float(exact_omd(x, p))          # 1 - x.p, exact for grid points and axis centres
+    t = t * rng.choice([1.0, 1.0, 1.0 + 2.0 ** -30, 1.0 - 2.0 ** -30])
+    t = min(t, 2.0)                      # |cm| <= 2 (assumption of the check: Mangle caps)
+    return rng.choice([1.0, -1.0]) * t
+
+
+def gen_exact_caps(rng, n, pts):
+    xs, cms = [], []
+    for _ in range(n):
+        x = list(rng.choice(AXES))
+        t = rng.random()
+        if t < 0.3:
+            cm = rng.choice(SPECIAL_CM[:10])     # +-0, denormal, +-1e-300, +-2, +-(2 - ulp)
+        elif t < 0.45:
+            cm = rng.choice(SPECIAL_CM)
+        elif t < 0.8 and pts:
+            cm = boundary_cm(rng, x, rng.choice(pts))
+        else:
+            cm = rng.choice([1, -1]) * C.dyadic(rng, 1 / 64, 1.9, 6)
+        xs.append(x)
+        cms.append(float(cm))
+    return xs, cms
+
+
+def gen_exact_window_job(rng, allcaps):
+    """Polygons mixing boundary-valued caps (cm = +-0, denormal, +-1e-300, +-2, 2 - ulp, ties and near-ties with the
+    points) with ordinary ones; axis centres and grid points, so that the implementation's arithmetic is exact."""
+    pts = [list(a) for a in AXES] + [grid_point(rng) for _ in range(14)]
+    kinds = ['centre/antipode'] * 6 + ['grid'] * 14
+    polys = []
+    for k in range(rng.randint(1, 4)):
+        n = rng.randint(1, 4)
+        xs, cms = gen_exact_caps(rng, n, pts)
+        u = (1 << n) - 1 if (allcaps or rng.random() < 0.4) else (rng.getrandbits(n) or 1)
+        polys.append({'x': xs, 'cm': cms, 'use_caps': u, 'id': 200 + k, 'pixel': k, 'weight': 1.0, 'str': 1.0})
+    allc = [(x, cm) for p in polys for x, cm in zip(p['x'], p['cm'])]
+    keep = [i for i, p in enumerate(pts) if all(margin_ok(x, cm, p) for x, cm in allc)]
+    pts = [pts[i] for i in keep]
+    kinds = [kinds[i] for i in keep]
+    routes = ['kwargs', 'copy', 'add_caps', 'fits_raw', 'fits_conv'] + (['kwargs_default', 'ply', 'balkans'] if allcaps else ['ply_assign'])
+    pad = [{'x': list(rng.choice(AXES)), 'cm': rng.choice(SPECIAL_CM)} for _ in range(4)]
+    t = rng.random()
+    job = {'f': 'window', 'polys': polys, 'pad': pad, 'ncaps': 0 if t < 0.7 else rng.randint(1, 4), 'pts': pts,
+           'radec': [radec_of(unit(p)) for p in pts], 'routes': routes, 'inpoly': True, 'kinds': kinds, 'allcaps': allcaps,
+           'onecap': False, 'ply_fmt': rng.choice(['repr', 'e', 'g']), 'exact': True}
+    if allcaps:
+        bcaps, icap = [], []
+        for p in polys:
+            if rng.random() < 0.5:
+                bcaps.append({'x': list(rng.choice(AXES)), 'cm': rng.choice(SPECIAL_CM)})
+            icap.append(len(bcaps))
+            bcaps += [{'x': x, 'cm': cm} for x, cm in zip(p['x'], p['cm'])]
+        job['balkans'] = {'bcaps': bcaps, 'icap': icap}
+    return job
+
+
+def gen_exact_cap_job(rng):
+    pts = [list(a) for a in AXES] + [grid_point(rng) for _ in range(10)]
+    xs, cms = gen_exact_caps(rng, 1, pts)
+    x, cm = xs[0], cms[0]
+    kinds = ['centre/antipode'] * 6 + ['grid'] * 10
+    keep = [i for i, p in enumerate(pts) if margin_ok(x, cm, p)]
+    pts = [pts[i] for i in keep]
+    return {'f': 'cap', 'x': x, 'cm': cm, 'pts': pts, 'radec': [radec_of(unit(p)) for p in pts], 'kinds': [kinds[i] for i in keep],
+            'exact': True}
 
 
 # ---------------------------------------------------------------- wave 3: storage types and call histories
@@ -632,11 +744,15 @@ def correspond(ctx, proof_ok=True):
         jobs.append(gen_setuse_job(rng))
     for k in range(ctx.n(12, 120)):
         jobs.append(gen_types_job(rng, k))
+    for k in range(ctx.n(8, 100)):
+        jobs.append(gen_exact_window_job(rng, allcaps=(k % 2 == 0)))
+    for _ in range(ctx.n(40, 600)):
+        jobs.append(gen_exact_cap_job(rng))
     for _ in range(ctx.n(10, 100)):
         jobs.append(gen_history_job(rng))
     nb = C.NPROC
     batches = [jobs[i::nb] for i in range(nb)]
-    strip = ('kinds', 'allcaps', 'onecap', 'ilk', 'dupkinds')
+    strip = ('kinds', 'allcaps', 'onecap', 'ilk', 'dupkinds', 'exact')
     outs = C.run_impl_parallel('c12_impl.py', [[{k: v for k, v in j.items() if k not in strip} for j in b] for b in batches])
     results = [None] * len(jobs)
     for bi, o in enumerate(outs):
@@ -760,7 +876,7 @@ def correspond(ctx, proof_ok=True):
                     exp_t = boolist([exp[i] for i in keep])
                 terms.append((ji, {'what': 'is_in_cap', 'mode': mode, 'keep': keep, 'pts': pts},
                               '(CCap %s %s %s)' % (cap_t(j['x'], j['cm']), C.coq_list([vec_t(pts[i]) for i in keep]), exp_t)))
-                count('is_in_cap:%s:cm%s' % (mode, '>=0' if j['cm'] >= 0 else '<0'), len(keep))
+                count('is_in_cap:%s:cm%s%s' % (mode, '>=0' if j['cm'] >= 0 else '<0', ':boundary-values' if j.get('exact') else ''), len(keep))
         elif j['f'] == 'sweep':
             keep = list(range(len(j['pts'])))
             for mi, mask in enumerate(j['masks']):
@@ -810,7 +926,7 @@ def correspond(ctx, proof_ok=True):
                 terms.append((ji, {'what': 'is_in_window', 'mode': mode, 'keep': keep, 'pts': pts, 'routes': routes},
                               '(CWindow %s %s %s %s)' % (C.coq_list([poly_t(p) for p in intended]), C.zlit(j['ncaps']),
                                                          C.coq_list([vec_t(pts[i]) for i in keep]), C.coq_list(expects))))
-                count('is_in_window:%s:ncaps%s%s' % (mode, '<=0' if j['ncaps'] <= 0 else '>0', ':with-whole-sky-polygon' if any(len(p['cm']) == 0 for p in intended) else ''), len(keep) * len(routes))
+                count('is_in_window:%s:ncaps%s%s' % (mode, '<=0' if j['ncaps'] <= 0 else '>0', (':with-whole-sky-polygon' if any(len(p['cm']) == 0 for p in intended) else '') + (':boundary-values' if j.get('exact') else '')), len(keep) * len(routes))
             # is_in_polygon, polygon by polygon, on two routes (ManglePolygon objects and raw FITS rows)
             pts = j['pts']
             prts = [rt for rt in ('kwargs', 'fits_raw') if rt in routes and 'err' not in r['routes'][rt]]
@@ -1081,7 +1197,7 @@ def replay(ctx, rep):
     if not j or 'f' not in j:
         print('replay file has no runnable job (kind=%s, item=%s)' % (rep.get('kind'), rep.get('item')))
         return 2
-    strip = ('kinds', 'allcaps', 'onecap', 'ilk', 'dupkinds')
+    strip = ('kinds', 'allcaps', 'onecap', 'ilk', 'dupkinds', 'exact')
     out = C.run_impl('c12_impl.py', [{k: v for k, v in j.items() if k not in strip}])
     r = out['results'][0]
     print('signature:', rep.get('signature'))
